@@ -35,6 +35,7 @@ var (
 	detail  = flag.String("detail", "", "file receiving per-case JSON details (replays)")
 	only    = flag.String("only", "", "hist: only scripts whose name contains this")
 	verbose = flag.Bool("v", false, "verbose")
+	repeat  = flag.Int("repeat", 1, "hist: run every selected script this many times")
 )
 
 var outMu sync.Mutex
